@@ -18,7 +18,7 @@ use crate::util::*;
 use pulldown_cmark::{CodeBlockKind, CowStr, Event, HeadingLevel, LinkType, Parser, Tag, TagEnd};
 use std::cell::RefCell;
 use std::panic::{catch_unwind, AssertUnwindSafe};
-use wit_bindgen_core::{Files, WorldGenerator};
+use wit_bindgen_core::Files;
 use wit_parser::*;
 
 thread_local! {
